@@ -317,7 +317,8 @@ def e3(cx):
         g = cx.graph(fn['key'], forward=True)      # the answer may travel through a private helper (`run_tick() -> bool`)
         label = cx.label(fn)
         found += 1
-        task_calls = [n for n in g.nodes if n['kind'] == 'call' and n['name'] == '<fnptr>']
+        from ..core import own_fnptr_call
+        task_calls = [n for n in g.nodes if own_fnptr_call(n)]
         if len(task_calls) != 1:
             res.append(Finding(ID, 'E3', label, False, 'expected exactly one call of the task fn pointer, found %d' % len(task_calls), fn['span']))
             continue
